@@ -40,6 +40,13 @@ def rule_status(R):
                     and any(is_call(x, "generation") for x in walk(s)):
                 ne = s[1] == "Ne"
                 return ("gen",), {"mismatch": e[True if ne else False], "match": e[False if ne else True]}
+            # `op.kind == OpKind::X` constrains the kind like a match arm does
+            if is_call(s, "PartialEq::eq", "eq") and len(s[3]) == 2:
+                sides = [peel(s[3][0]), peel(s[3][1])]
+                ks_ = [x for x in sides if x[0] == "agg" and x[2] == KIND]
+                fs_ = [x for x in sides if chain(x) == (("param", "op"), ["kind"])]
+                if len(ks_) == 1 and len(fs_) == 1:
+                    return ("op", "kind"), {ks_[0][3]: e[True], ("not", frozenset([ks_[0][3]])): e[False]}
             for alt in phi_alts(s):
                 a = peel(alt)
                 if a[0] == "call" and a[2] == hr.name:
@@ -106,7 +113,7 @@ def rule_status(R):
             r, nm = chain(st.operand_term(c.args[1]))
             R.ob("status/lookup-arg#%d" % n, r == ("param", "op") and nm == ["packet_id"],
                  "status looks up the handle's own identifier", where=c.span)
-    R.floor("status/lookup-arg", n, 3, "queue lookups in status")
+    R.floor("status/lookup-arg", n, 2, "queue lookups in status")
     # the lookups themselves compare identifiers
     for b, q in ((hr, "retained"), (hp, "pending_release")):
         ok = roles.membership_loop(b, q, roles.eq_test_taken("packet_id", ("param", "packet_id")))
